@@ -1,0 +1,15 @@
+//go:build verif
+
+package pypi
+
+// VerifParseEvalMarker parses a PEP 508 environment marker and evaluates it
+// for the given extras against the fixed target environment. It is only
+// available with the "verif" build tag and is used by an external verification
+// harness to drive the marker evaluator directly.
+func VerifParseEvalMarker(raw string, extras map[string]bool) (ok bool, val bool, text string) {
+	m, err := parseMarker(raw)
+	if err != nil {
+		return false, false, ""
+	}
+	return true, m.Eval(extras), m.String()
+}
